@@ -41,14 +41,14 @@ def run(c):
     return c.finish(
         rule="(gen) dsn.GenerateDSN called directly on generated envelopes / reporting-MTA data / 0-4 recipient records (valid and invalid: empty or unconvertible addresses and host names, "
         "missing action, zero status class, *smtp.SMTPError / other / nil diagnostics, multi-line, non-ASCII, long and whitespace-heavy texts, texts with bare CR, CR CR LF, LF CR, NUL, "
-        "other C0 controls, DEL, C1 / Unicode line separators, white space at either end or nothing else, a 300-octet word, 700-octet lines, 2.6 kB multi-line replies), both flavours, 11 original headers; "
+        "other C0 controls, DEL, C1 / Unicode line separators, white space at either end or nothing else, a 300-octet word, 700-octet lines, 2.6 kB multi-line replies, texts that BEGIN like an IPv4 address / a version number / an enhanced status code of the same, the other, no or an impossible class / a basic code, signed, padded, full-width digits - with and without an enhanced code of the error itself), both flavours, 11 original headers; "
         "(q) the REAL queue (spool, time wheel, 1-3 attempts, JSON round trip of the metadata between attempts) behind — in 60% of the cases — a REAL msgpipeline.MsgPipeline built by msgpipeline.New "
         "(global / per-source / per-destination rewriting modifiers, aliases expanding 1-to-3, optionally a nested reroute pipeline; 38% of the rewriting steps change ONLY THE SPELLING of the recipient - "
         "letter case of local part / domain / both, NFC / NFD, A-labels / U-labels, trailing dot - alone, chained with real rewrites in the same or the nested pipeline, or taken by the nested pipeline alone; "
         "the rewritten recipients anywhere in the transaction, the sender "
         "rewritten by the pipeline) or handed to Queue.Start directly with a prepared OriginalRcpts (0-3 levels), on a scripted atomic or PartialDelivery target answering every stage: Start refused, "
         "1-6 recipients refused at RCPT, the message then refused at DATA (or per accepted recipient) or at Commit, error values "
-        "generated from maddy's wrapping primitives (88% coherent, incl. annotations without enhanced code), senders null / rewritten / IDN / EAI, recipients incl. sibling "
+        "generated from maddy's wrapping primitives (88% coherent, incl. annotations without enhanced code - 35% of those with a text that begins like an address / version / status code / reply code, the whole Diagnostic-Code field then compared exactly), senders null / rewritten / IDN / EAI, recipients incl. sibling "
         "chains, several failed members of one alias, two spellings of one mailbox differing in case, ASCII / upper-case / mixed-case / A-label / U-label / quoted / long / EAI spellings, local parts that are NOT in NFC "
         "(combining sequence, U+212B, conjoining jamo, decomposed inside a quoted string), with compatibility / full-width characters, with U+00DF / U+0130 in mixed case - for recipients, rewrite targets and senders, the domain-less postmaster (gen), HELO names incl. unconvertible ones (Received-From-MTA left out, the report still generated), bounce pipeline failing at Start / AddRcpt / Body / Commit; "
         "every report is serialised, parsed with net/mail + mime/multipart + net/textproto, rendered canonically and compared with the Lean model's report, the whole bounce-call trace "
